@@ -205,6 +205,32 @@ static void reqQueue_clearWithError(KSI_LIST(KSI_AsyncHandle) *reqQueue, int err
 	}
 }
 
+/**
+ * Fails the queued requests whose send timeout has elapsed. Used while the connection is established but
+ * nothing can be written: the requests would otherwise stay in the queue for as long as the socket is not writable.
+ * A request that has been written partially is left alone.
+ */
+static void reqQueue_failExpired(TcpAsyncCtx *tcpCtx) {
+	size_t i = 0;
+	time_t curTime = time(NULL);
+
+	while (i < KSI_AsyncHandleList_length(tcpCtx->reqQueue)) {
+		KSI_AsyncHandle *req = NULL;
+
+		if (KSI_AsyncHandleList_elementAt(tcpCtx->reqQueue, i, &req) != KSI_OK || req == NULL) break;
+
+		if (req->state == KSI_ASYNC_STATE_WAITING_FOR_DISPATCH && req->sentCount == 0 &&
+				(tcpCtx->parent->options[KSI_ASYNC_OPT_SND_TIMEOUT] == 0 ||
+				(difftime(curTime, req->reqTime) > tcpCtx->parent->options[KSI_ASYNC_OPT_SND_TIMEOUT]))) {
+			req->state = KSI_ASYNC_STATE_ERROR;
+			req->err = KSI_NETWORK_SEND_TIMEOUT;
+			KSI_AsyncHandleList_remove(tcpCtx->reqQueue, i, NULL);
+		} else {
+			i++;
+		}
+	}
+}
+
 static int dispatch(TcpAsyncCtx *tcpCtx) {
 	int res = KSI_UNKNOWN_ERROR;
 	struct pollfd pfd;
@@ -252,6 +278,7 @@ static int dispatch(TcpAsyncCtx *tcpCtx) {
 				res = KSI_OK;
 			} else {
 				KSI_LOG_debug(tcpCtx->ctx, "[%p] Async TCP connection not ready.", tcpCtx);
+				if (tcpCtx->socketReady) reqQueue_failExpired(tcpCtx);
 				res = KSI_OK;
 			}
 			goto cleanup;
@@ -379,6 +406,7 @@ static int dispatch(TcpAsyncCtx *tcpCtx) {
 	/* Handle output. */
 	if (!(pfd.revents & POLLOUT)) {
 		KSI_LOG_debug(tcpCtx->ctx, "[%p] Async TCP output buffer not ready.", tcpCtx);
+		reqQueue_failExpired(tcpCtx);
 		res = KSI_OK;
 		goto cleanup;
 	}
